@@ -134,6 +134,21 @@ class Sync:
     g = cfgm.cfg_of(fi.node)
     ok_edges = prune_by_consts(env)
 
+    # locals that only ever hold one of the assumed-true attributes
+    aliases: dict[str, int] = {}
+    alias_ok: set[str] = set()
+    if assume_true:
+      for x in ast.walk(fi.node):
+        if isinstance(x, ast.Assign):
+          for t_ in x.targets:
+            if isinstance(t_, ast.Name):
+              aliases[t_.id] = aliases.get(t_.id, 0) + 1
+              v_ = x.value
+              if (isinstance(v_, ast.Attribute) and isinstance(v_.value, ast.Name)
+                  and v_.value.id == 'self' and v_.attr in assume_true):
+                alias_ok.add(t_.id)
+      alias_ok = {a for a in alias_ok if aliases.get(a) == 1}
+
     def edge_ok(n, m, lab):
       if lab in ('exc', 'close') or not ok_edges(n, m, lab):
         return False
@@ -143,6 +158,8 @@ class Sync:
           t, neg = t.operand, True
         if (isinstance(t, ast.Attribute) and isinstance(t.value, ast.Name)
             and t.value.id == 'self' and t.attr in assume_true):
+          return (lab == 'true') != neg
+        if isinstance(t, ast.Name) and t.id in alias_ok:
           return (lab == 'true') != neg
       return True
 
